@@ -3,6 +3,6 @@ CONSTANTS
   MaxChunks = 6
   Kinds = {"var", "func", "stmt", "flitres"}
   Variants = {"plain"}
-  FuncExprIsDecl = TRUE
+  FuncExprIsDecl = FALSE
 INVARIANTS WantIsStatement CodeKeepsBytes SplitSane CodeMeetsStatement Export
 PROPERTY Terminates
